@@ -310,13 +310,16 @@ def run(prog: Program, res: Result, tier: str) -> None:
         (res.ok if ok else res.bad)("R6", m, m.node if m else fc.node, f"FrequencyChannels.{name} = {w}" if ok else
                                     f"FrequencyChannels.{name} is `{norm(pe) if pe is not None else '?'}`, expected `{w}`", construct=f"FrequencyChannels.{name}", key=f"freq:{name}")
     pd_ = sh.methods.get("_parse_data")
-    ok = pd_ is not None and "self._sub_freqs = sub_data.field('DAT_FREQ')" in norm(pd_.node)
+    from ..normalform import normal_form as _nf18
+    ok = pd_ is not None and [e.text() for e in _nf18(pd_).sets("self._sub_freqs")] == [canon("sub_data.field('DAT_FREQ')")]
     (res.ok if ok else res.bad)("R6", pd_, pd_.node if pd_ else sh.node, "channel frequencies come from the DAT_FREQ column of the first row" if ok else
                                 "SubintHdr no longer reads channel frequencies from DAT_FREQ", construct="_parse_data", key="key:DAT_FREQ")
     ph = prog.cls(PFITS, "PrimaryHdr")
     pe = property_expr(prog, ph, "tstart")
-    ok = pe is not None and "self.header['STT_IMJD']" in norm(pe) and "float(self.header['STT_SMJD'])" in norm(pe) and "float(self.header['STT_OFFS'])" in norm(pe) \
-        and "format='sec'" in norm(pe)
+    import re as _re18
+    ok = pe is not None and _re18.fullmatch(
+        r"Time\(self\.header\['STT_IMJD'\], format='mjd'(, location=self\.location)?(, scale='utc')?\) \+ "
+        r"TimeDelta\(float\(self\.header\['STT_SMJD'\]\), float\(self\.header\['STT_OFFS'\]\), format='sec'\)", canon(pe)) is not None
     (res.ok if ok else res.bad)("R6", ph.methods["tstart"], ph.methods["tstart"].node, "start epoch = STT_IMJD days + (STT_SMJD + STT_OFFS) seconds" if ok else
                                 "PrimaryHdr.tstart is no longer STT_IMJD + STT_SMJD + STT_OFFS", construct="tstart", key="key:tstart")
     res.floor("R6", 14)
